@@ -205,7 +205,7 @@ func pageMain(args []string) {
 	o := hx.ParseOpts(args)
 	rep := hx.NewReport("collections of 1..8 pages (thorough: ..20) of 0..5 items (..10), HasNext flag honest in 80% of the collections and arbitrary otherwise, " +
 		"fetch failure after k fetches in 25%; op sequences of 0..24 calls over HasNext/GetNext/Stop (Stop rare), plus a canonical drain; " +
-		"each case on the 4 AbstractPaginator-based constructors. non-trivial = at least 2 pages and at least one GetNext; distinct = (collection, ops, kind).")
+		"each case on the 4 AbstractPaginator-based constructors; plus real-time scenarios on the two stream paginators with future pages (batches arriving at scheduled instants, DryUp at a scheduled instant or never, grace period 400 ms, slack 150 ms). non-trivial = at least 2 pages and at least one GetNext; distinct = (collection, ops, kind).")
 	drv, err := hx.StartDriver(o.Driver)
 	if err != nil {
 		fmt.Println("driver:", err)
@@ -406,5 +406,6 @@ func pageMain(args []string) {
 			}
 		}
 	}
+	streamFutureScenarios(rep, o)
 	rep.Write(o.Report, drv)
 }
